@@ -310,7 +310,8 @@ impl<W: Write> ReportWriter<W> {
             OutputFormat::Fdupes => self.write_as_fdupes(header, groups),
             OutputFormat::Csv => self.write_as_csv(header, groups),
             OutputFormat::Json => self.write_as_json(header, groups),
-        }
+        }?;
+        self.out.flush()
     }
 }
 
